@@ -22,7 +22,7 @@ from puresnmp.adt import (
     V3Flags,
 )
 from puresnmp.credentials import V3, Credentials
-from puresnmp.exc import SnmpError
+from puresnmp.exc import ErrorResponse, SnmpError
 from puresnmp.pdu import GetRequest, PDUContent, Report
 from puresnmp.plugins.security import SecurityModel
 from puresnmp.transport import MESSAGE_MAX_SIZE
@@ -444,13 +444,24 @@ class UserSecurityModel(
 
         verify_authentication(message, credentials, security_params)
         message = decrypt_message(message, credentials)
+        unauthenticated = (
+            credentials.auth is not None and not message.header.flags.auth
+        )
+        if unauthenticated and not isinstance(message.scoped_pdu.data, Report):
+            # The only unauthenticated content we may act upon are USM
+            # reports. Anything else must carry the security level of the
+            # credentials (see RFC 3412, section 7.2.10), otherwise anybody
+            # can forge a response by simply clearing the auth-flag. The
+            # content (including its error-status) must not even be looked
+            # at.
+            raise AuthenticationError(
+                "Incoming message is not authenticated although the "
+                "credentials require authentication!"
+            )
         validate_usm_message(message)
-        if credentials.auth is not None and not message.header.flags.auth:
-            # The only unauthenticated content we may act upon are USM reports
-            # (which surfaced as an error just above). Anything else must
-            # carry the security level of the credentials (see RFC 3412,
-            # section 7.2.10), otherwise anybody can forge a response by
-            # simply clearing the auth-flag.
+        if unauthenticated:
+            # An unauthenticated report which did not surface as an error
+            # just above.
             raise AuthenticationError(
                 "Incoming message is not authenticated although the "
                 "credentials require authentication!"
@@ -551,11 +562,18 @@ def validate_usm_message(message: PlainMessage) -> None:
 
     :raises SnmpError: If an error was found
     """
-    pdu = message.scoped_pdu.data.value
     if not isinstance(message.scoped_pdu.data, Report):
         # The USM statistics are ordinary (readable) objects. They only
         # signal an error when the agent sends them in a report.
         return
+    try:
+        pdu = message.scoped_pdu.data.value
+    except ErrorResponse as exc:
+        # A report is not authenticated. Its error-status must not be taken
+        # for the answer of the agent (f.ex. "noSuchName" ending a walk).
+        raise SnmpError(
+            f"Error response from remote device: invalid report ({exc})"
+        ) from exc
     errors = {
         ObjectIdentifier(
             "1.3.6.1.6.3.15.1.1.1.0"
